@@ -9,7 +9,8 @@
    name.  `reads cfg t` = [build] passunsafeenv ++ [build] passenv ++ target pass_unsafe_env ++ target pass_env
    ++ (HOME, only if a secret of the target contains "~").  `with_env t e`: the same target with its env dict listed
    in another order (a Go map has none). *)
-From PlzV Require Import Base.Harness Model.C10 Proof.C10.
+From PlzV Require Import Base.Harness Model.C10 Proof.C10 Proof.C10_Gen.
+From PlzV Require Gen.C10Env.
 From Coq Require Import Permutation.
 
 Definition C10_statement : Prop :=
@@ -93,3 +94,9 @@ Example C10_nonvacuous :
   /\ config_stream cfg c1 = config_stream cfg c3
   /\ rule_stream [] [] t c1 <> rule_stream [] [] t c3.
 Proof. vm_compute. repeat split; discriminate. Qed.
+
+(* The model follows the source: on a sample target that takes every branch the model assigns the environment keys in
+   the order of the statements gotrans regenerates from src/core/build_env.go on every run (Gen/C10Env.v). *)
+Example C10_source_tie :
+  map fst (build_env sample_cfg sample_target (s "/tmp/b") sample_caller) = flat_map inst (map snd Gen.C10Env.env_keys).
+Proof. exact env_keys_tie. Qed.
